@@ -473,6 +473,9 @@ func (a *allowerContext) createEventAllowed(event PDU) error {
 	if err != nil {
 		return err
 	}
+	if sender == nil {
+		return errorf("userID not found for sender %q in room %q", event.SenderID(), event.RoomID().String())
+	}
 	verImpl, err := GetRoomVersion(event.Version())
 	if err != nil {
 		return nil
@@ -505,6 +508,9 @@ func (a *allowerContext) aliasEventAllowed(event PDU) error {
 	sender, err := a.userIDQuerier(a.roomID, event.SenderID())
 	if err != nil {
 		return err
+	}
+	if sender == nil {
+		return errorf("userID not found for sender %q in room %q", event.SenderID(), event.RoomID().String())
 	}
 
 	if event.RoomID().String() != a.create.roomID {
@@ -892,6 +898,9 @@ func (a *allowerContext) redactEventAllowed(event PDU) error {
 	sender, err := a.userIDQuerier(a.roomID, event.SenderID())
 	if err != nil {
 		return err
+	}
+	if sender == nil {
+		return errorf("userID not found for sender %q in room %q", event.SenderID(), event.RoomID().String())
 	}
 	if string(sender.Domain()) == redactDomain {
 		return nil
